@@ -98,3 +98,96 @@ package decimal
 //@   hint[ret] Vdef(m, 0, len(m)-1)
 //@   hint[ret] V_bounds(m, 0, len(m)-1)
 //@   hint[ret] Pdef(len(m)-1)
+
+// ---------------------------------------------------------------------------
+// Operands.  opnd(x): a valid Decimal used as an operand.  gapok: the operand size bound
+// under which the machine-integer digit counts of round() cannot wrap (listed in the
+// evidence as an assumption of every property that goes through uadd/usub).
+//@ define opnd(x) = x != nil && valid(x)
+//@ define finop(x) = x != nil && valid(x) && x.form == finite
+//@ define gapok(x, y) = (x.exp - 19*len(x.mant)) - (y.exp - 19*len(y.mant)) <= 1000000000 && (y.exp - 19*len(y.mant)) - (x.exp - 19*len(x.mant)) <= 1000000000 && len(x.mant) <= 10000000 && len(y.mant) <= 10000000
+//@ define scalars_unchanged(x) = x.exp == old(x.exp) && x.prec == old(x.prec) && x.mode == old(x.mode) && x.acc == old(x.acc) && x.form == old(x.form) && x.neg == old(x.neg) && x.mant == old(x.mant)
+
+//@ func (z *Decimal) uadd(x, y *Decimal)
+//@   requires[wf]    z != nil && z.prec >= 1 && z.mode <= 5 && finop(x) && finop(y) && sep(z, x) && sep(z, y) && gapok(x, y)
+//@   modifies z.acc, z.exp, z.form, z.mant, memcap(z.mant)
+//@   ensures[form,C08] (z.form == finite || z.form == zero || z.form == inf) && 0 - 1 <= z.acc && z.acc <= 1
+//@   ensures[shape,C08] z.form == finite ==> mantok(z) && 19*len(z.mant) < z.prec + 19 && (19*len(z.mant) > z.prec ==> z.mant[0] % p10(19*len(z.mant) - z.prec) == 0)
+//@   ensures[buffer,C18] (z.mant.arr == old(z.mant.arr) && z.mant.off == old(z.mant.off) && cap(z.mant) == old(cap(z.mant))) || fresh(z.mant)
+//@   hint[entry] V_ge_P(x.mant, 0, len(x.mant))
+//@   hint[entry] V_ge_P(y.mant, 0, len(y.mant))
+//@   hint[entry] P_mono(0, len(x.mant)-1)
+//@   hint[entry] P_mono(0, len(y.mant)-1)
+//@   tags support C08,C04
+//@   hint[after:shl#1] V_nonneg(result, 0, len(result))
+//@   hint[after:shl#2] V_nonneg(result, 0, len(result))
+//@   hint[after:shl#3] V_nonneg(result, 0, len(result))
+//@   hint[after:shl#4] V_nonneg(result, 0, len(result))
+
+// |x| > |y| for finite x, y, with both mantissas scaled to the smaller exponent.
+//@ define absgt(x, y) =
+//@   let ex = x.exp - 19*len(x.mant) in let ey = y.exp - 19*len(y.mant) in
+//@   (ex <= ey ==> V(x.mant) > V(y.mant)*p10(ey-ex)) && (ex > ey ==> V(x.mant)*p10(ex-ey) > V(y.mant))
+//@ define abseq(x, y) =
+//@   let ex = x.exp - 19*len(x.mant) in let ey = y.exp - 19*len(y.mant) in
+//@   (ex <= ey ==> V(x.mant) == V(y.mant)*p10(ey-ex)) && (ex > ey ==> V(x.mant)*p10(ex-ey) == V(y.mant))
+
+//@ func (z *Decimal) usub(x, y *Decimal)
+//@   requires[wf]    z != nil && z.prec >= 1 && z.mode <= 5 && finop(x) && finop(y) && sep(z, x) && sep(z, y) && gapok(x, y)
+//@   requires[order] absgt(x, y) || abseq(x, y)
+//@   modifies z.acc, z.exp, z.form, z.neg, z.mant, memcap(z.mant)
+//@   ensures[form,C08] (z.form == finite || z.form == zero || z.form == inf) && 0 - 1 <= z.acc && z.acc <= 1
+//@   ensures[shape,C08] z.form == finite ==> mantok(z) && 19*len(z.mant) < z.prec + 19 && (19*len(z.mant) > z.prec ==> z.mant[0] % p10(19*len(z.mant) - z.prec) == 0)
+//@   ensures[buffer,C18] (z.mant.arr == old(z.mant.arr) && z.mant.off == old(z.mant.off) && cap(z.mant) == old(cap(z.mant))) || fresh(z.mant)
+//@   ensures[cancel,C01,C02,C04] old(abseq(x, y)) ==> z.form == zero && z.acc == 0 && z.neg == false
+//@   ensures[neg,C01] !old(abseq(x, y)) ==> z.neg == old(z.neg)
+//@   hint[after:shl#1] V_nonneg(result, 0, len(result))
+//@   hint[after:shl#2] V_nonneg(result, 0, len(result))
+//@   hint[after:shl#3] V_nonneg(result, 0, len(result))
+//@   hint[after:shl#4] V_nonneg(result, 0, len(result))
+//@   tags support C08,C04
+//@   hint[entry] V_ge_P(x.mant, 0, len(x.mant))
+//@   hint[entry] V_ge_P(y.mant, 0, len(y.mant))
+//@   hint[entry] P_mono(0, len(x.mant)-1)
+//@   hint[entry] P_mono(0, len(y.mant)-1)
+//@   hint[after:sub#1] len(result) >= 1 ==> V_ge_P(result, 0, len(result))
+//@   hint[after:sub#2] len(result) >= 1 ==> V_ge_P(result, 0, len(result))
+//@   hint[after:sub#3] len(result) >= 1 ==> V_ge_P(result, 0, len(result))
+//@   hint[after:sub#4] len(result) >= 1 ==> V_ge_P(result, 0, len(result))
+//@   hint[after:sub#5] len(result) >= 1 ==> V_ge_P(result, 0, len(result))
+//@   hint[after:sub#1] len(result) >= 1 ==> P_mono(0, len(result)-1)
+//@   hint[after:sub#2] len(result) >= 1 ==> P_mono(0, len(result)-1)
+//@   hint[after:sub#3] len(result) >= 1 ==> P_mono(0, len(result)-1)
+//@   hint[after:sub#4] len(result) >= 1 ==> P_mono(0, len(result)-1)
+//@   hint[after:sub#5] len(result) >= 1 ==> P_mono(0, len(result)-1)
+
+//@ func (z *Decimal) umul(x, y *Decimal)
+//@   requires[wf]    z != nil && z.prec >= 1 && z.mode <= 5 && finop(x) && finop(y) && sep(z, x) && sep(z, y) && len(x.mant) <= 10000000 && len(y.mant) <= 10000000
+//@   modifies z.acc, z.exp, z.form, z.mant, memcap(z.mant)
+//@   ensures[form,C08] (z.form == finite || z.form == zero || z.form == inf) && 0 - 1 <= z.acc && z.acc <= 1
+//@   ensures[shape,C08] z.form == finite ==> mantok(z) && 19*len(z.mant) < z.prec + 19 && (19*len(z.mant) > z.prec ==> z.mant[0] % p10(19*len(z.mant) - z.prec) == 0)
+//@   ensures[buffer,C18] (z.mant.arr == old(z.mant.arr) && z.mant.off == old(z.mant.off) && cap(z.mant) == old(cap(z.mant))) || fresh(z.mant)
+//@   hint[entry] V_ge_P(x.mant, 0, len(x.mant))
+//@   hint[entry] V_ge_P(y.mant, 0, len(y.mant))
+//@   hint[entry] P_mono(0, len(x.mant)-1)
+//@   hint[entry] P_mono(0, len(y.mant)-1)
+//@   hint[entry] mul_mono(1, V(x.mant), V(y.mant))
+//@   hint[after:mul#1] len(result) >= 1 ==> V_ge_P(result, 0, len(result))
+//@   hint[after:sqr#1] len(result) >= 1 ==> V_ge_P(result, 0, len(result))
+//@   tags support C08,C04
+
+//@ func (z *Decimal) uquo(x, y *Decimal)
+//@   requires[wf]    z != nil && z.prec >= 1 && z.prec <= 1000000000 && z.mode <= 5 && finop(x) && finop(y) && sep(z, x) && sep(z, y) && len(x.mant) <= 10000000 && len(y.mant) <= 10000000
+//@   modifies z.acc, z.exp, z.form, z.mant, memcap(z.mant)
+//@   ensures[form,C08] (z.form == finite || z.form == zero || z.form == inf) && 0 - 1 <= z.acc && z.acc <= 1
+//@   ensures[shape,C08] z.form == finite ==> mantok(z) && 19*len(z.mant) < z.prec + 19 && (19*len(z.mant) > z.prec ==> z.mant[0] % p10(19*len(z.mant) - z.prec) == 0)
+//@   ensures[buffer,C18] (z.mant.arr == old(z.mant.arr) && z.mant.off == old(z.mant.off) && cap(z.mant) == old(cap(z.mant))) || fresh(z.mant)
+//@   hint[entry] V_ge_P(x.mant, 0, len(x.mant))
+//@   hint[entry] V_bounds(y.mant, 0, len(y.mant))
+//@   hint[entry] V_ge_P(y.mant, 0, len(y.mant))
+//@   hint[entry] P_mono(0, len(y.mant)-1)
+//@   hint[after:div#1] len(result0) >= 1 ==> V_ge_P(result0, 0, len(result0))
+//@   hint[after:copy#1] V_ge_P(xadj, 0, len(xadj))
+//@   hint[after:copy#1] P_mono(len(y.mant), len(xadj)-1)
+//@   hint[entry] len(x.mant) > len(y.mant) ==> P_mono(len(y.mant), len(x.mant)-1)
+//@   tags support C08,C04
